@@ -237,6 +237,23 @@ t("C20", "remove-widget-without-relayout", BL, "\tb.changed = true\n\twidget.Unw
 t("C20", "no-fill-remainder-kept", BL, "\tresid := extra\n\tif totf == 0 {\n\t\tresid = 0\n\t}\n\n\tfor _, c := range b.cells {\n\t\tif c.fill > 0 {\n\t\t\tc.frac = float64(extra) * c.fill / totf\n\t\t\tc.pad = int(c.frac)\n\t\t\tc.frac -= float64(c.pad)\n\t\t\tresid -= c.pad\n\t\t}\n\t}\n\n\t// Distribute any left over padding.  We try to give it to the\n\t// the cells with the highest residual fraction.  It should be\n\t// the case that no single cell gets more than one more cell.\n\tfor resid > 0 {\n\t\tvar best *boxLayoutCell\n\t\tfor _, c := range b.cells {\n\t\t\tif c.fill == 0 {\n\t\t\t\tcontinue\n\t\t\t}\n\t\t\tif best == nil || c.frac > best.frac {\n\t\t\t\tbest = c\n\t\t\t}\n\t\t}\n\t\tbest.pad++\n\t\tbest.frac = 0\n\t\tresid--\n\t}\n\n\tx, y, yinc", "\tresid := extra\n\n\tfor _, c := range b.cells {\n\t\tif c.fill > 0 {\n\t\t\tc.frac = float64(extra) * c.fill / totf\n\t\t\tc.pad = int(c.frac)\n\t\t\tc.frac -= float64(c.pad)\n\t\t\tresid -= c.pad\n\t\t}\n\t}\n\n\t// Distribute any left over padding.  We try to give it to the\n\t// the cells with the highest residual fraction.  It should be\n\t// the case that no single cell gets more than one more cell.\n\tfor resid > 0 {\n\t\tvar best *boxLayoutCell\n\t\tfor _, c := range b.cells {\n\t\t\tif c.fill == 0 {\n\t\t\t\tcontinue\n\t\t\t}\n\t\t\tif best == nil || c.frac > best.frac {\n\t\t\t\tbest = c\n\t\t\t}\n\t\t}\n\t\tbest.pad++\n\t\tbest.frac = 0\n\t\tresid--\n\t}\n\n\tx, y, yinc", "vLayout:no-fill")
 t("C20", "share-divided-by-own-fill", "views/boxlayout.go", "\t\t\tc.frac = float64(extra) * c.fill / totf\n\t\t\tc.pad = int(c.frac)\n\t\t\tc.frac -= float64(c.pad)\n\t\t\tresid -= c.pad\n\t\t}\n\t}\n\n\t// Distribute any left over padding.  We try to give it to the\n\t// the cells with the highest residual fraction.  It should be\n\t// the case that no single cell gets more than one more cell.\n\tfor resid > 0 {\n\t\tvar best *boxLayoutCell\n\t\tfor _, c := range b.cells {\n\t\t\tif c.fill == 0 {\n\t\t\t\tcontinue\n\t\t\t}\n\t\t\tif best == nil || c.frac > best.frac {\n\t\t\t\tbest = c\n\t\t\t}\n\t\t}\n\t\tbest.pad++\n\t\tbest.frac = 0\n\t\tresid--\n\t}\n\n\tx, y, xinc", "\t\t\tc.frac = float64(extra) / totf\n\t\t\tc.pad = int(c.frac)\n\t\t\tc.frac -= float64(c.pad)\n\t\t\tresid -= c.pad\n\t\t}\n\t}\n\n\tfor resid > 0 {\n\t\tvar best *boxLayoutCell\n\t\tfor _, c := range b.cells {\n\t\t\tif c.fill == 0 {\n\t\t\t\tcontinue\n\t\t\t}\n\t\t\tif best == nil || c.frac > best.frac {\n\t\t\t\tbest = c\n\t\t\t}\n\t\t}\n\t\tbest.pad++\n\t\tbest.frac = 0\n\t\tresid--\n\t}\n\n\tx, y, xinc", "hLayout:proportional-share")
 
+# ---------------------------------------------------------------- round 9
+t("C01", "resize-wakeup-channel-unbuffered", TS, "\tt.resizeQ = make(chan bool, 1)", "\tt.resizeQ = make(chan bool)", "offered-without-blocking:has-room")
+t("C01", "signal-channel-unbuffered", "tty_unix.go", "\t\tsig: make(chan os.Signal, 1),", "\t\tsig: make(chan os.Signal),", "handed-to-signal.Notify")
+t("C03", "esc-key-on-expiry", TS, "\t\t\t\tif len(b) == 1 {\n\t\t\t\t\tmod := ModNone", "\t\t\t\tif len(b) == 1 || expire {\n\t\t\t\t\tmod := ModNone", "only-for-a-lone-ESC")
+t("C04", "cursor-table-without-default", TS, "\t\t\tCursorStyleDefault:           \"\\x1b[0 q\",\n", "", "has-default")
+t("C04", "disable-paste-ignored-while-suspended", TS, "\tt.Lock()\n\tt.pasteEnabled = false\n", "\tt.Lock()\n\tif !t.running {\n\t\tt.Unlock()\n\t\treturn\n\t}\n\tt.pasteEnabled = false\n", "records-pasteEnabled")
+t("C06", "drain-before-stop-signal", TS, "\tclose(stopQ)\n\t_ = t.tty.Drain()", "\t_ = t.tty.Drain()\n\tclose(stopQ)", "after-the-stop-signal")
+t("C07", "quoted-percent-before-the-skip-gate", "terminfo/terminfo.go", "\t\tif skip != emit {\n\t\t\t// A nested", "\t\tif ch == '%' {\n\t\t\tpb.PutCh(ch)\n\t\t\tcontinue\n\t\t}\n\t\tif skip != emit {\n\t\t\t// A nested", "outputs-behind-the-skip-gate")
+t("C13", "capabilities-appended-verbatim", TS, "\t\tt.ti.TPuts(&t.buf, s)", "\t\t_, _ = io.WriteString(&t.buf, s)", "through-the-padding-stripper")
+t("C13", "shrink-clears-the-terminal", TS, "\tt.cells.Resize(ws.Width, ws.Height)\n\tt.cells.Invalidate()\n\tt.h = ws.Height", "\tt.clear = true\n\tt.cells.Resize(ws.Width, ws.Height)\n\tt.cells.Invalidate()\n\tt.h = ws.Height", "raised-by-Sync-only")
+t("C14", "truecolor-only-for-colour-entries", "terminfo/terminfo.go", "\tif addtruecolor &&\n\t\tt.SetFgBgRGB == \"\" &&", "\tif addtruecolor &&\n\t\tt.Colors > 0 &&\n\t\tt.SetFgBgRGB == \"\" &&", "direct-colour-synthesis")
+t("C17", "acs-table-depends-on-charset", TS, "\tfor len(acsstr) >= 2 {", "\tfor len(acsstr) >= 2 && t.charset != \"KOI8-R\" {", "filled-whatever-the-charset")
+t("C19", "disable-mouse-ignored-while-suspended", "wscreen.go", "\tt.Lock()\n\tt.mouseFlags = 0\n", "\tt.Lock()\n\tif !t.running {\n\t\tt.Unlock()\n\t\treturn\n\t}\n\tt.mouseFlags = 0\n", "records-mouseFlags")
+t("C19", "ctrl-name-not-folded", "wscreen.go", "WebKeyNames[\"Ctrl-\"+strings.ToLower(key)]", "WebKeyNames[\"Ctrl-\"+strings.TrimSpace(key)]", "folded-to-lower-case")
+t("C20", "same-limits-skip-the-locked-flag", VW, "\tv.limx = width\n\tv.limy = height\n\tv.locked = locked", "\tif width == v.limx && height == v.limy {\n\t\treturn\n\t}\n\tv.limx = width\n\tv.limy = height\n\tv.locked = locked", "parameter-locked")
+t("C20", "even-share-ignores-fill", BL, "\t\t\tc.pad = int(c.frac)\n\t\t\tc.frac -= float64(c.pad)\n\t\t\tresid -= c.pad\n\t\t}\n\t}\n\n\t// Distribute any left over padding.  We try to give it to the\n\t// the cells with the highest residual fraction.  It should be\n\t// the case that no single cell gets more than one more cell.\n\tfor resid > 0 {\n\t\tvar best *boxLayoutCell\n\t\tfor _, c := range b.cells {\n\t\t\tif c.fill == 0 {\n\t\t\t\tcontinue\n\t\t\t}\n\t\t\tif best == nil || c.frac > best.frac {\n\t\t\t\tbest = c\n\t\t\t}\n\t\t}\n\t\tbest.pad++\n\t\tbest.frac = 0\n\t\tresid--\n\t}\n\n\tx, y, xinc", "\t\t\tc.pad = extra / len(b.cells)\n\t\t\tc.frac -= float64(c.pad)\n\t\t\tresid -= c.pad\n\t\t}\n\t}\n\n\tfor resid > 0 {\n\t\tvar best *boxLayoutCell\n\t\tfor _, c := range b.cells {\n\t\t\tif c.fill == 0 {\n\t\t\t\tcontinue\n\t\t\t}\n\t\t\tif best == nil || c.frac > best.frac {\n\t\t\t\tbest = c\n\t\t\t}\n\t\t}\n\t\tbest.pad++\n\t\tbest.frac = 0\n\t\tresid--\n\t}\n\n\tx, y, xinc", "pad-store")
+
 # drop the placeholder teeth that were only notes
 T[:] = [x for x in T if not x["Expect"].startswith("zzz-")]
 
